@@ -11,7 +11,10 @@ so one run of the decision tree covers all 256^N inputs of that length).  Oracle
         in order.
 """
 import socket as _socket
+import traceback
 from typing import Optional
+
+import z3
 
 from mitmproxy.proxy import commands, events, layer
 from mitmproxy.proxy.layers import modes
@@ -152,6 +155,8 @@ class Run:
         self.d = sansio.Driver(self.layer, self.ctx)
         self.recs = []
         self.auths = []
+        self.X = X
+        self.buflen = 0
         ctx = self.ctx
 
         def on_hook(hook):
@@ -171,8 +176,24 @@ class Run:
         self.d.start()
 
     def feed(self, seg):
-        if len(seg):
+        if not len(seg):
+            return
+        try:
             self.d.data(self.ctx.client, seg)
+        except (symx.Violation, symx.Unsupported, z3.Z3Exception):
+            raise
+        except Exception as e:  # noqa
+            # the property allows no exception at all: every input is either refused or served.  (Judged here rather than by the
+            # engine's crash rule because an IndexError raised by the SymBytes model on behalf of /repo code has its innermost
+            # frame in vf/symbytes.py and would be reported as a harness error.)
+            tb = traceback.extract_tb(e.__traceback__)
+            where = next((f"{f.name}:{f.line}" for f in reversed(tb) if "/mitmproxy/" in f.filename), "?")
+            if not any("/mitmproxy/" in f.filename for f in tb):
+                raise
+            self.X.fail(f"C21/layer-crash/{type(e).__name__}", f"Socks5Proxy raised {type(e).__name__}: {e} at {where} while handling a {len(seg)}-byte segment "
+                        f"(buffer before: {self.buflen} bytes)")
+        finally:
+            self.buflen = len(getattr(self.layer, "buf", b"") or b"")
 
     def out(self):
         d = self.d
